@@ -6,6 +6,7 @@ mod props;
 mod refstf;
 mod refvm;
 mod report;
+mod loomrun;
 mod stf;
 mod vmrun;
 mod world;
